@@ -20,7 +20,7 @@ CLAIMS = {
   "DESIGN.md section 5, C05"),
  "C08": ("proof",
   "LimitPlan and FinalLimitPlan (Init, Next, Batch) are proved, for every offset, count, result size, symbolic batch size and every split of the child's output into batches, to return exactly the next rows Start+current.. of the child's ghost output sequence, to stop at Count or at the child's end, and to maintain the object invariant that makes the per-call statement compose over calls.",
-  TRUST + "The child is represented by the Plan/FinalPlan interface contract (ghost sequence, any batch split). Composition over calls is an induction argued on paper with the machine-checked object invariant as hypothesis. The plan wiring (buildFinalPlan, buildFinalLimitPlan, the LimitPlan of buildDeletePlan, the limit half of AggregatePlan.Next/Batch) is under contract; parseLimit is not (the numbers of the LimitStmt are taken as given).",
+  TRUST + "The child is represented by the Plan/FinalPlan interface contract (ghost sequence, any batch split). Composition over calls is an induction argued on paper with the machine-checked object invariant as hypothesis. The plan wiring (buildFinalPlan, buildFinalLimitPlan, the LimitPlan of buildDeletePlan, the limit half of AggregatePlan.Next/Batch) is under contract; parseLimit is under contract for the two documented forms (`limit n`: Start 0, Count n; `limit s, n`: Start s, Count n; numbers are the tokens' decimal values).",
   "DESIGN.md section 5, C08"),
  "C10": ("proof",
   "The scalar functions are under contract against their one-line descriptions, row and vector forms: value coercions (decimal rendering and reading), str / int / float / is_int / is_float / strlen, substr (clamped byte range), len and [n] over every list representation, int_list / float_list / list keeping argument order, split (provenance of strings.Split) and join (strings.Join of the renderings), distances refusing unequal lengths. 32 functions; defects found by failed obligations and repaired (substr panic, len and indexing refusing list kinds, list() vector form).",
@@ -35,8 +35,8 @@ CLAIMS = {
   TRUST + "Expression.Execute is assumed to be a function of expression and pair (interface contract); Put/BatchPut/Delete/BatchDelete semantics are A-STORE. Parser/validators for PUT and REMOVE are not yet under contract.",
   "DESIGN.md section 5, C12"),
  "C14": ("proof",
-  "checker.go is under contract: each operator's operand rule is a postcondition of its checkWith* function (stated over the static result types of the operands), and a ghost mark proves that a successful Check of any node implies a successful Check of every operand, list item, argument and field-access operand below it, with the in-place alias rewriting modelled exactly (element-level frames) and guarded against circular references (a name is resolved only when its field's definition does not contain the referencing expression: defect D10, repaired); Check returns only SyntaxError values. 21 functions, obligations generated from the working tree's go/ssa form on every run and discharged by z3 / cvc5.",
-  TRUST + "Known finding D13 (unknown function / wrong argument count accepted at build time; pinned by the existing tests, not repaired) is listed in known_findings.json. The converse direction (allowed statements are accepted and never raise operand-type errors) and the parser's per-statement keyword flags are not covered. Static result types are a specification function (A-RTYPE).",
+  "checker.go is under contract: each operator's operand rule is a postcondition of its checkWith* function (stated over the static result types of the operands), and a ghost mark proves that a successful Check of any node implies a successful Check of every operand, list item, argument and field-access operand below it, with the in-place alias rewriting modelled exactly (element-level frames) and guarded against circular references (a name is resolved only when its field's definition does not contain the referencing expression: defect D10, repaired); Check returns only SyntaxError values; a successful Check under a context that forbids `key` / `value` means the keyword occurs nowhere in the expression (usesKw, defined by unfolding), and the PUT / REMOVE / DELETE statement validators are proved to check every key / value expression with the right restrictions and kinds (defect D30 found and repaired: `key` was accepted in the key expression of a put pair). 26 functions and lemmas, obligations generated from the working tree's go/ssa form on every run and discharged by z3 / cvc5.",
+  TRUST + "Known finding D13 (unknown function / wrong argument count accepted at build time; pinned by the existing tests, not repaired) is listed in known_findings.json. The converse direction (allowed statements are accepted and never raise operand-type errors), the flags chosen by parsePut / parseRemove and the non-Boolean WHERE test of Parse are not covered. Static result types are a specification function (A-RTYPE).",
   "DESIGN.md section 5, C14"),
  "C15": ("proof",
   "The recursive-descent expression parser is under contract: Token.Precedence and BuildOp are proved equal to the documented operator table, and parseBinaryExpr and its eleven helpers are proved, for every token sequence, to build only binary nodes whose left operand binds at least as strongly and whose right operand binds strictly more strongly than the node's operator (ghost binding level, parentheses / calls / indexes / lists at the top level), to stop exactly in front of a weaker operator, and to parse BETWEEN bounds above the comparison level. The twelve String methods of expression.go are proved to return the canonical fully parenthesised rendering (one defining axiom per node kind; fmt.Sprintf with %s-only formats and strings.Join modelled exactly). 26 functions; obligations generated from the go/ssa form of the working tree on every run and discharged by z3 / cvc5.",
